@@ -55,8 +55,16 @@ func runC20(c *Ctx) {
 					okB, _ := allOrigins(elems[0], oIsValue(outer.Params[0]), oConstString("/"))
 					okP := vFieldLoadO("rt/middleware.specOptions", "Path")(elems[1])
 					okD := vFieldLoadO("rt/middleware.specOptions", "Document")(elems[2])
+					if !okP || !okD {
+						// both (string) fields renamed at once: names cannot be told apart, positions can — the sub-path is
+						// the first and the document name the second field of specOptions
+						i1, ok1 := specOptionFieldIndex(elems[1])
+						i2, ok2 := specOptionFieldIndex(elems[2])
+						okP, okD = ok1 && ok2 && i1 == 0, ok1 && ok2 && i2 == 1
+					}
 					return okB && okP && okD
-				}))
+				}), oConstString("/")) // ("/": a fallback for an empty join, which path.Join never yields)
+				ok = ok && someOrigin(v, oCall(-1, "path.Join"))
 				return ok, describeOrigin(bad)
 			}
 		} else {
@@ -107,6 +115,10 @@ func runC20(c *Ctx) {
 				okR, _ := allOrigins(args[1], oIsValue(r))
 				c.obI("R20.1", ci, s.what+"-forwards-unmodified", okN && okA && okR, "every other request is handed to the next handler with the very ResponseWriter and Request received", "next.ServeHTTP is not called with (rw, r) of the incoming request")
 				c.obI("R20.1", ci, s.what+"-next-non-nil", guardedBy(ci, nil, haveNext), "next is only called when it is non-nil", "next.ServeHTTP reachable with a nil next")
+				// … and only for foreign requests: a request is passed on only on a path on which its cleaned path was
+				// compared with the document path and differs (no cheaper pre-test on the raw path decides it)
+				notOurs := func(cond ssa.Value, branch bool) bool { return intercept(cond, !branch) }
+				c.obI("R20.1", ci, s.what+"-own-path-always-served", guardedBy(ci, nil, notOurs), "every request whose cleaned path equals the document path is served here: it is handed to the next handler only when path.Clean(r.URL.Path) differs from the document path", "a request can be passed to the next handler without its cleaned path having been found different from the document path")
 				// a request that is not ours always reaches next: no path from entry to a return avoiding both interception and next when next != nil
 			default:
 				if strings.HasPrefix(name, "(net/http.ResponseWriter).") {
@@ -269,7 +281,14 @@ func runC20(c *Ctx) {
 	// R20.3 uiOptionsForHandler
 	uf := p.Fn("(rt/middleware.Context).uiOptionsForHandler")
 	splits := callsIn(uf, "path.Split")
-	parses := callsIn(uf, "net/url.Parse")
+	parses := callsIn(uf, "net/url.Parse", "net/url.ParseRequestURI")
+	for _, pc := range parses {
+		// the browser resolves the SpecURL the page carries as a URL REFERENCE (a '#fragment' is split off):
+		// url.Parse does the same, url.ParseRequestURI keeps the fragment in the path
+		c.definite = true
+		c.obI("R20.3", pc, "SpecURL-parsed-as-reference", calleeName(pc.Common()) == "net/url.Parse", "the SpecURL is parsed with url.Parse (fragment and query split off the path, as the browser will do)", "parsed with "+calleeName(pc.Common()))
+		c.definite = false
+	}
 	c.obRF("R20.3", uf, "derives-spec-route", len(splits) == 1 && len(parses) == 1, "the spec route is derived by path.Split from the parsed SpecURL", fmt.Sprintf("%d Split, %d Parse", len(splits), len(parses)))
 	if len(splits) == 1 && len(parses) == 1 {
 		sp := splits[0].(*ssa.Call)
@@ -390,6 +409,33 @@ func runC20(c *Ctx) {
 		}
 	}
 	c.obRF("R20.3", p.Fn("(*rt/middleware.uiOptions).EnsureDefaults"), "SpecURL-writers", nSU >= 2, "writers of SpecURL found (option setter and default)", fmt.Sprintf("%d", nSU))
+	// the UI base path is only ever set through WithUIBasePath (which makes it absolute) or defaulted to "/": the
+	// documentation path built from it can then be equal to a cleaned request path
+	nBP := 0
+	for _, fn := range p.LibFuncs("rt/middleware") {
+		for _, st := range fieldStores(fn, "rt/middleware.uiOptions", "BasePath") {
+			if st.Parent() != fn {
+				continue
+			}
+			nBP++
+			okW := false
+			root := fn
+			for root.Parent() != nil {
+				root = root.Parent()
+			}
+			switch {
+			case fnName(root) == "rt/middleware.WithUIBasePath":
+				okW = true
+			default:
+				// a constant absolute default
+				if k, isK := constString(st.Val); isK && strings.HasPrefix(k, "/") {
+					okW = true
+				}
+			}
+			c.obI("R20.3", st, "ui-base-path-made-absolute", okW, "uiOptions.BasePath is written only by WithUIBasePath (which prefixes a missing '/') or with a constant absolute default", "uiOptions.BasePath is assigned in "+fnName(fn)+" without the leading-slash normalisation")
+		}
+	}
+	c.obRF("R20.3", p.Fn("rt/middleware.WithUIBasePath"), "ui-base-path-writers", nBP >= 2, "the UI base path has its setter and its default", fmt.Sprintf("%d writers", nBP))
 
 	// R20.4 template fields exist
 	mw := p.TypesPkg("rt/middleware")
@@ -496,4 +542,28 @@ func rootedAt(addr ssa.Value, base ssa.Value) bool {
 		}
 	}
 	return false
+}
+
+// specOptionFieldIndex: v is (on every origin) a read of one field of specOptions; it returns that field's index.
+func specOptionFieldIndex(v ssa.Value) (int, bool) {
+	idx := -1
+	for _, o := range originsOf(v) {
+		ad, ok := derefLoad(o.V)
+		if !ok {
+			return 0, false
+		}
+		fa, ok := ad.(*ssa.FieldAddr)
+		if !ok {
+			return 0, false
+		}
+		n, _ := structOf(fa.X.Type())
+		if n == nil || typeFullName(n) != "rt/middleware.specOptions" {
+			return 0, false
+		}
+		if idx >= 0 && idx != fa.Field {
+			return 0, false
+		}
+		idx = fa.Field
+	}
+	return idx, idx >= 0
 }
